@@ -1,0 +1,14 @@
+//go:build verif
+
+package vivid
+
+import "github.com/kercylan98/minotaur/engine/prc"
+
+// VerifRegistryAddresses is a read-only accessor for the verification harness in /verif: the
+// logical addresses currently registered in the system's resource controller, sorted.
+func VerifRegistryAddresses(sys *ActorSystem) []prc.LogicalAddress {
+	return sys.rc.VerifAddresses()
+}
+
+// VerifResourceController returns the system's resource controller (read-only use by the harness).
+func VerifResourceController(sys *ActorSystem) *prc.ResourceController { return sys.rc }
